@@ -84,7 +84,17 @@ def run_cfg(bib, c, BlockProbe, LibProbe):
             return {"err": True}
         except Exception as ex:  # noqa
             return {"err": "other", "exc": f"{type(ex).__name__}: {ex}"}
-        return {"err": False, "e": observe_entry(lib.entries[0])}
+        out = {"err": False, "e": observe_entry(lib.entries[0])}
+        # the same call with library=<a library holding an earlier, untransformed entry>
+        try:
+            lib0 = bib.Library([M.Entry("article", "pre", [M.Field("title", "{{x}}"), M.Field("month", "3")])])
+            lib = bib.parse_string(DOC, library=lib0, parse_stack=build(bib, c["ps"], BlockProbe, LibProbe, c["ct"]),
+                                   append_middleware=build(bib, c["app"], BlockProbe, LibProbe, c["ct"]))
+            keys = [e.key for e in lib.entries]
+            out["into"] = {"keys": keys, "pre": observe_entry(lib.entries[0]), "e": observe_entry(lib.entries[1])} if keys == ["pre", "k"] else {"keys": keys}
+        except Exception as ex:  # noqa
+            out["into"] = {"exc": f"{type(ex).__name__}: {ex}"}
+        return out
     if c["side"] == "write":
         lib = bib.Library([M.Entry("article", "k", [M.Field("title", "x")])])
         try:
@@ -218,7 +228,7 @@ def run(chk: core.Check):
     chk.extra["rule"] = (f"every configuration of MC_Entrypoints (stacks of 0..{maxs} of 5 parse / 4 write middlewares in each "
                          "argument position x list/tuple/one-shot iterator; both arguments; 14 result kinds x 5 block types for "
                          "the splice protocol) + file clauses; non-trivial = distinct configuration")
-    res = core.run_tlc("MC_Entrypoints", f"INIT Init\nNEXT Next\nCONSTANT MaxStack = {maxs}\nINVARIANT InvOrder\nINVARIANT InvBoth\n"
+    res = core.run_tlc("MC_Entrypoints", f"INIT Init\nNEXT Next\nCONSTANT MaxStack = {maxs}\nINVARIANT InvOrder\nINVARIANT InvBoth\nINVARIANT InvInto\n"
                                          "CHECK_DEADLOCK FALSE\n")
     chk.add_tlc(res, f"MC_Entrypoints MaxStack={maxs}: InvOrder, InvBoth")
     BlockProbe, LibProbe = make_probes(bib)
@@ -236,7 +246,12 @@ def run(chk: core.Check):
             if c["side"] == "parse":
                 w = {"layers": want["e"]["layers"], "log": [list(x) for x in want["e"]["log"]], "mint": want["e"]["mint"]}
                 ok, clause = got["e"] == w, "parse_stack_order"
+                wp = {"layers": want["pre"]["layers"], "log": [list(x) for x in want["pre"]["log"]], "mint": want["pre"]["mint"]}
                 want = w
+                if ok:
+                    winto = {"keys": ["pre", "k"], "pre": wp, "e": w}
+                    if got["into"] != winto:
+                        ok, clause, want = False, "parse_into_library", {"e": w, "into": winto}
             elif c["side"] == "write":
                 # expected text: the effective stack of the specification applied by hand, then the real writer
                 # (so that only the ORDER and CONTENT of the stack are judged here, not the writer's layout: C06)
@@ -273,5 +288,5 @@ def replay(rec, chk):
     BlockProbe, LibProbe = make_probes(bib)
     got = run_cfg(bib, rec["input"]["cfg"], BlockProbe, LibProbe)
     exp = rec["expected"]
-    ok = got == exp or (got.get("err") is False and (got.get("e") == exp or got.get("text") == exp.get("text") or got.get("bs") == exp.get("bs")))
+    ok = got == exp or (got.get("err") is False and (got.get("e") == exp or (got.get("e") == exp.get("e") and got.get("into") == exp.get("into", 0)) or got.get("text") == exp.get("text") or got.get("bs") == exp.get("bs")))
     return got, exp, ok
